@@ -180,7 +180,16 @@ def statements_lock_check(prop):
     return bad
 
 
+def regen_all():
+    """Regenerate every generated model part from /repo (a mutant run may have left stale Gen/*.v behind)."""
+    import importlib
+    sys.path.insert(0, os.path.join(VERIF, "props"))
+    for f in sorted(glob.glob(os.path.join(VERIF, "props", "c[0-9][0-9].py"))):
+        importlib.import_module(os.path.basename(f)[:-3]).Property().regen()
+
+
 def relock():
+    regen_all()
     coq_build([])
     lines = []
     for pin in sorted(glob.glob(os.path.join(COQ, "pins/*.v"))):
